@@ -1111,6 +1111,21 @@ func oraclePack(c *PackCase, jr *JobResult) []Problem {
 		}
 	}
 
+	// ---- C03/C09 (i): a regular file's security.capability attribute travels in its header
+	if refOK {
+		for i, h := range hs {
+			e := expOf[i]
+			if e == nil || e.conv() || e.Node == nil || e.Node.Cap == "" || h.Typeflag != tar.TypeReg {
+				continue
+			}
+			pkCount("c09:capability-checked")
+			if got := h.PAXRecords["SCHILY.xattr.security.capability"]; got != e.Node.Cap {
+				add(pkProb("C09: (i) %q: the file has a security.capability attribute of %d bytes, its header carries %d bytes (%q)", h.Name, len(e.Node.Cap), len(got), got))
+				break
+			}
+		}
+	}
+
 	// ---- C09 (h): reproducible
 	if jr.Before != "" || jr.After != "" {
 		pkCount("c09:two-runs")
